@@ -88,7 +88,7 @@ theorem dec_congr_ty : ∀ (t : JTy), t.byKey = true → ∀ (ms ns : List (Stri
   | .bytes _, _, _, _, _ => by simp [mapDecode, asStr]
   | .byteArr viaPtr _, _, _, _, _ => by cases viaPtr <;> simp [mapDecode, asStr]
   | .typedBytes viaPtr n _ key, _, ms, ns, h => by
-    cases viaPtr <;> cases n <;> simp [mapDecode, asObj, asStr, h key]
+    cases viaPtr <;> cases n <;> simp [mapDecode, decTypedBytes, asObj, h key]
   | .u256, _, _, _, _ => by simp [mapDecode, asStr]
   | .time, _, _, _, _ => by simp [mapDecode, asStr]
   | .slice _ _, _, _, _, _ => by simp [mapDecode, asArr]
